@@ -443,6 +443,11 @@ def sx_setitem(x, k, v):
             _merge_mask(x, m, v)
             return
         if x.dtype != object and really_sym(v):
+            if x.dtype.kind in "iu":
+                # numpy truncates towards zero on assignment into an integer array; the truncated value
+                # is concretised by a solver-guided case split (one path per distinct value)
+                x[_demote_key(k)] = _trunc_concretize(v)
+                return
             raise Unsupported(f"assignment of symbolic data into numeric {x.dtype} array")
         x[_demote_key(k)] = v
         return
@@ -450,6 +455,27 @@ def sx_setitem(x, k, v):
         v0 = z3.simplify(k.t)
         k = v0.as_long() if z3.is_int_value(v0) else k.__index__()
     x[k] = v
+
+
+def _trunc_concretize(v):
+    from .core import SymInt, SymReal, term
+
+    def one(e):
+        if isinstance(e, SymInt):
+            return ENGINE.concretize_int(term(e), cap=3)
+        if isinstance(e, SymReal):
+            t = term(e)
+            return ENGINE.concretize_int(z3.If(t >= 0, z3.ToInt(t), -z3.ToInt(-t)), cap=3)
+        if isinstance(e, Sym):
+            raise Unsupported("assignment of a symbolic non-number into an integer array")
+        return int(e)
+
+    if isinstance(v, _np.ndarray):
+        out = _np.empty(v.shape, dtype=_np.int64)
+        for i in _np.ndindex(*v.shape):
+            out[i] = one(v[i])
+        return out
+    return one(v)
 
 
 def _is_pyint(x):
@@ -611,6 +637,30 @@ class _Random:
         return _np.random.seed(*a, **k)
 
 
+class _F64Meta(type(_np.float64)):
+    """np.float64 as seen by instrumented modules: still a dtype specifier equal to float64
+    (x.dtype == np.float64, dtype=np.float64, isinstance checks), but calling it keeps symbols"""
+
+    def __instancecheck__(cls, x):
+        return isinstance(x, _np.float64)
+
+    def __eq__(cls, other):
+        return other is cls or other is _np.float64
+
+    def __ne__(cls, other):
+        return not cls.__eq__(other)
+
+    def __hash__(cls):
+        return hash(_np.float64)
+
+
+class _F64(_np.float64, metaclass=_F64Meta):
+    def __new__(cls, x=0.0):
+        if has_sym(x) and not isinstance(x, _np.ndarray):
+            return sx_float(x)
+        return _np.float64(x)
+
+
 class NumpyProxy:
     """Forwards to numpy; float allocations become object arrays while the engine is active."""
 
@@ -724,8 +774,7 @@ class NumpyProxy:
             return self.asarray(o, dtype)
         return _np.ascontiguousarray(o, dtype=dtype)
 
-    def float64(self, x=0.0):
-        return sx_float(x) if has_sym(x) and not isinstance(x, _np.ndarray) else _np.float64(x)
+    float64 = _F64
 
     # --- elementwise
     def floor(self, x, *a, **k):
